@@ -12,7 +12,7 @@ ENCODED = ['Representer.represent_object / represent_name / represent_module / r
            'FullConstructor.construct_python_object / construct_python_object_apply / construct_python_object_new / make_python_instance / '
            'set_python_instance_state / construct_python_name / construct_python_module / construct_python_tuple / construct_python_complex',
            'UnsafeConstructor overrides', 'through yaml.dump(obj) (Dumper) and yaml.unsafe_load / yaml.full_load (text level: emitter, scanner, parser, composer included)']
-BOUNDS = {'quick': 'object graphs over 2 slots; each slot one of 21 shapes (dict / list subclasses whose __setitem__ / extend keep derived data and whose __reduce__ returns dictitems / listitems, a dict with an instance as key, instance dict, __slots__, __slots__+__dict__, __getstate__/__setstate__ with dict and with tuple state, __slots__ with __setstate__, __getnewargs__, '
+BOUNDS = {'quick': 'object graphs over 2 slots; each slot one of 22 shapes (a subclass without __slots__ of a slotted class, dict / list subclasses whose __setitem__ / extend keep derived data and whose __reduce__ returns dictitems / listitems, a dict with an instance as key, instance dict, __slots__, __slots__+__dict__, __getstate__/__setstate__ with dict and with tuple state, __slots__ with __setstate__, __getnewargs__, '
                    '__reduce__ with args+state, __reduce__ without args, list / dict subclasses with attributes, list, dict, tuple, namedtuple, OrderedDict, set, leaf table incl. '
                    'enum / complex / class / function / module) with two child pointers each (any slot, itself included, or a leaf): sharing, nesting of shapes, cycles',
           'thorough': '3 slots'}
@@ -22,7 +22,7 @@ ASSUMPTIONS = ['oracle: pickle.loads(pickle.dumps(obj, 2)), compared by type-str
 
 LEAVES = [1, 'txt', None, 2.5, True, K.Color.RED, 3 + 4j, K.Plain, K.func, collections, b'by', K.Point(1, 'p'), (), (1, 'two'), K.Color, len]
 KINDS = ['Plain', 'Slots', 'SlotsAndDict', 'State', 'NewArgs', 'Reduce', 'ReduceNoArgs', 'ListSub', 'DictSub', 'list', 'dict', 'tuple', 'Point', 'OrderedDict', 'set', 'leaf',
-         'StatePair', 'SlotsState', 'KeyDict', 'DictHook', 'ListHook']
+         'StatePair', 'SlotsState', 'KeyDict', 'DictHook', 'ListHook', 'SlotsSub']
 # KeyDict: a dict whose first child is its *key* (when hashable: instances hash by identity) and whose second child is that key's value
 MUTABLE_PLAIN = ('Plain', 'list', 'dict', 'KeyDict')            # a cycle through these only must be preserved
 IMMUTABLE = ('tuple', 'Point', 'NewArgs', 'set', 'leaf')
@@ -46,7 +46,7 @@ def build(ns, kinds, A, B, leaf_i):
     leaf = pick(leaf_i, LEAVES)
     for i in range(ns):
         k = kind[i]
-        if k in ('Plain', 'Slots', 'SlotsAndDict', 'State', 'ReduceNoArgs', 'StatePair', 'SlotsState', 'DictHook', 'ListHook'):
+        if k in ('Plain', 'Slots', 'SlotsAndDict', 'State', 'ReduceNoArgs', 'StatePair', 'SlotsState', 'DictHook', 'ListHook', 'SlotsSub'):
             objs[i] = getattr(K, k)()
         elif k == 'Reduce':
             objs[i] = K.Reduce(i)
@@ -90,6 +90,10 @@ def build(ns, kinds, A, B, leaf_i):
             o.kept = child(a, i)
         elif k == 'Slots':
             o.p, o.q = child(a, i), child(b, i)
+        elif k == 'SlotsSub':
+            o.p = child(a, i)
+            if b is not None:
+                o.extra = child(b, i)      # with b absent the instance dictionary stays empty: state (None, {slots})
         elif k == 'StatePair':
             o.first, o.second = child(a, i), child(b, i)
         elif k == 'SlotsState':
@@ -131,7 +135,7 @@ def build(ns, kinds, A, B, leaf_i):
     return objs[0], info, edges
 
 
-DEEP_KINDS = ('Slots', 'SlotsAndDict', 'State', 'NewArgs', 'Reduce', 'ReduceNoArgs', 'ListSub', 'DictSub', 'Point', 'OrderedDict', 'StatePair', 'SlotsState', 'DictHook', 'ListHook')
+DEEP_KINDS = ('Slots', 'SlotsAndDict', 'State', 'NewArgs', 'Reduce', 'ReduceNoArgs', 'ListSub', 'DictSub', 'Point', 'OrderedDict', 'StatePair', 'SlotsState', 'DictHook', 'ListHook', 'SlotsSub')
 
 
 def _closure(info, edges):
